@@ -7,6 +7,7 @@ import (
 	"os"
 	"time"
 
+	"github.com/AdguardTeam/golibs/errors"
 	"github.com/AdguardTeam/golibs/logutil/slogutil"
 	"github.com/AdguardTeam/golibs/osutil"
 )
@@ -114,8 +115,7 @@ func (h *SignalHandler) shutdown(ctx context.Context) (status osutil.ExitCode) {
 
 	status = osutil.ExitCodeSuccess
 	for i := len(h.services) - 1; i >= 0; i-- {
-		s := h.services[i]
-		err := s.Shutdown(ctx)
+		err := shutdownService(ctx, h.services[i])
 		if err == nil {
 			continue
 		}
@@ -128,4 +128,17 @@ func (h *SignalHandler) shutdown(ctx context.Context) (status osutil.ExitCode) {
 	h.logger.InfoContext(ctx, "shut down", "status", status)
 
 	return status
+}
+
+// shutdownService shuts down s.  A panic in s.Shutdown is returned as an error,
+// so that the remaining services are still shut down and the failure is
+// reflected in the exit code.
+func shutdownService(ctx context.Context, s Shutdowner) (err error) {
+	defer func() {
+		if v := recover(); v != nil {
+			err = errors.FromRecovered(v)
+		}
+	}()
+
+	return s.Shutdown(ctx)
 }
